@@ -17,6 +17,7 @@ namespace AutoVerif.C11
 inductive RawOp where
   | add (ps : List Proposal) | remove (ps : List Proposal) | view (t : Nat) | adv (d : Nat)
   | enq (ps : List Proposal) | deq (t n : Nat) | outcome (sf : List (List Proposal))
+  | tick (t n : Nat) (ok : Bool) (sleep : Nat)
 
 def rawOp (j : Json) : R RawOp := do
   match ← strF j "op" with
@@ -27,6 +28,11 @@ def rawOp (j : Json) : R RawOp := do
   | "enq" => pure (.enq (← listF proposal j "ps"))
   | "deq" => pure (.deq (← natF j "t") (← natF j "n"))
   | "outcome" => pure (.outcome (← listF (listOf proposal) j "surfaced"))
+  | "start" => pure (.adv 0)   -- a final flow is started: nothing happens in the stores
+  | "tick" =>
+    -- builder script of the tick: fail < 0 = no error; sleep = how long BuildPayloads takes
+    let fail ← intF j "fail"
+    pure (.tick (← natF j "t") (← natF j "n") (decide (fail < 0)) (← natF j "sleep"))
   | o => throw s!"unknown op {o}"
 
 def outOf (j : Json) : R (Option (List Proposal)) :=
@@ -86,6 +92,7 @@ structure Walk where
   diff : String := ""
   tags : List String := []
   seen : List (String × Nat) := []   -- (work id, block) handed so far
+  busy : List (Nat × Nat) := []      -- (flow type, time until which its BuildPayloads call runs)
   nontrivial : Bool := false
 
 def Walk.note (w : Walk) (i : Nat) (what : String) (want got : List Proposal) : Walk :=
@@ -94,7 +101,7 @@ def Walk.note (w : Walk) (i : Nat) (what : String) (want got : List Proposal) : 
     { w with agree := false, diff := s!"op {i} {what}: model={want.map showP} impl={got.map showP}" }
   else w
 
-def walkStep (tg : String → Nat) (w : Walk) (i : Nat) (rop : RawOp) (out : Option (List Proposal)) : Walk :=
+def walkStep (tg : String → Nat) (w : Walk) (i : Nat) (rop : RawOp) (out aux : Option (List Proposal)) : Walk :=
   let st := w.st
   match rop with
   | .add ps => { w with st := step tg st (.add ps), ops := .add ps :: w.ops, tags := w.tags ++ ["add"] }
@@ -139,6 +146,10 @@ def walkStep (tg : String → Nat) (w : Walk) (i : Nat) (rop : RawOp) (out : Opt
     let sameUpkeepSplit := want.any (fun p => st.q.any (fun e =>
       e.2.proposal.upkeepID == p.upkeepID && e.1 != p.workID && !want.contains e.2.proposal && !qExpired st.now e.2))
     let w := w.note i "dequeue" want got
+    -- the slice the caller keeps must still hold what was handed to it after later calls
+    let w := match aux with
+      | some ret => w.note i "dequeue result as re-read by its holder after the later operations" got ret
+      | none => w
     let keysOf := want.map (fun p => (p.workID, p.trigger.blockNumber))
     let dt :=
       (if !want.isEmpty then ["deq-hands-out"] else ["deq-empty"]) ++
@@ -154,9 +165,44 @@ def walkStep (tg : String → Nat) (w : Walk) (i : Nat) (rop : RawOp) (out : Opt
     { w with st := step tg st op, ops := op :: w.ops, tags := w.tags ++ dt, seen := w.seen ++ keysOf,
              nontrivial := w.nontrivial || !want.isEmpty }
 
-def walk (tg : String → Nat) : List RawOp → List (Option (List Proposal)) → Nat → Walk → Walk
-  | [], _, _, w => w
-  | rop :: rops, outs, i, w => walk tg rops outs.tail (i + 1) (walkStep tg w i rop outs.head?.join)
+  | .tick t n ok sleep =>
+    -- aux = the proposals `Dequeue` returned (the builder's arguments on entry); out = the payloads
+    -- that reached the runner of the finalisation flow
+    let deqd := aux.getD []
+    let order := orderOf st.q deqd
+    let op := Op.tick t n order ok
+    let want := (dequeue tg t n st.now order st.q).1
+    let w := w.note i "tick: dequeue" want deqd
+    let wantDel := if ok then want else []
+    let w := w.note i "tick: payloads handed to the finalisation runner" wantDel (out.getD [])
+    let keysOf := wantDel.map (fun p => (p.workID, p.trigger.blockNumber))
+    let overlap := w.busy.any (fun b => b.1 != t && b.2 > st.now)
+    let tt := ["tick"] ++
+      (if !wantDel.isEmpty then ["tick-hands-on"] else []) ++
+      (if !ok then ["tick-builder-error"] else []) ++
+      (if !ok && !want.isEmpty then ["tick-builder-error-drops-dequeued-batch"] else []) ++
+      (if overlap then ["tick-while-other-flow-builds"] else []) ++
+      (if overlap && !want.isEmpty then ["tick-dequeues-while-other-flow-holds-its-batch"] else []) ++
+      (if st.q.any (fun e => qExpired st.now e.2) then ["deq-purges-expired"] else []) ++
+      (if keysOf.any (w.seen.contains ·) then ["rehanded-after-window"] else [])
+    { w with st := step tg st op, ops := op :: w.ops, tags := w.tags ++ tt, seen := w.seen ++ keysOf,
+             busy := if sleep > 0 && !deqd.isEmpty then (t, st.now + sleep) :: w.busy else w.busy,
+             nontrivial := w.nontrivial || !want.isEmpty }
+
+def walk (tg : String → Nat) : List RawOp → List (Option (List Proposal)) → List (Option (List Proposal)) → Nat →
+    Walk → Walk
+  | [], _, _, _, w => w
+  | rop :: rops, outs, auxs, i, w =>
+    walk tg rops outs.tail auxs.tail (i + 1) (walkStep tg w i rop outs.head?.join auxs.head?.join)
+
+/-- the observations with every plain `Dequeue` result replaced by what its holder reads later -/
+def retainedOuts : List Op → List (Option (List Proposal)) → List (Option (List Proposal)) →
+    List (Option (List Proposal))
+  | [], _, _ => []
+  | op :: ops, outs, auxs =>
+    (match op, auxs.head?.join with
+     | .deq _ _ _, some ret => some ret
+     | _, _ => outs.head?.join) :: retainedOuts ops outs.tail auxs.tail
 
 def handle (input impl : Json) : R Reply := do
   let table ← listF (fun j => do pure ((← strF j "uid"), (← natF j "t"))) input "types"
@@ -164,13 +210,22 @@ def handle (input impl : Json) : R Reply := do
   let rops ← listF rawOp input "ops"
   let outs ← listF outOf impl "outs"
   if outs.length ≠ rops.length then throw s!"outs has {outs.length} entries for {rops.length} ops"
-  let w := walk tg rops outs 0 { st := St.init 0 }
+  let auxs ← listOf outOf (fieldD impl "aux" .null)
+  -- final-flow activity the history did not declare (a tick or a runner call at an unexpected time)
+  let extra ← asNat (fieldD impl "extra" (.num 0))
+  let w := walk tg rops outs auxs 0 { st := St.init 0 }
   let ops := w.ops.reverse
   let mouts := run tg ops (St.init 0)
   let sm := spec tg 0 ops mouts
-  let si := spec tg 0 ops outs
-  pure { agree := w.agree, specModel := sm, specImpl := si, diff := w.diff,
-         fail := if si then "" else explain tg 0 ops outs,
+  let si1 := spec tg 0 ops outs
+  let routs := retainedOuts ops outs auxs
+  let si2 := spec tg 0 ops routs
+  let si := si1 && si2
+  let agree := w.agree && extra == 0
+  pure { agree := agree, specModel := sm, specImpl := si,
+         diff := if !w.agree then w.diff else if extra != 0 then s!"{extra} undeclared final-flow ticks / runner calls" else "",
+         fail := if si then "" else if !si1 then explain tg 0 ops outs
+                 else "as held by the caller after later Dequeue calls: " ++ explain tg 0 ops routs,
          nontrivial := w.nontrivial, tags := dedup w.tags }
 
 end AutoVerif.C11
